@@ -19,7 +19,7 @@ func init() {
 			"(5) MonoNode's epoch derives from time.Now() through Add only (monotonic reading preserved) and Generate reads the clock with time.Since(epoch); (6) NewNode seeds time/step with IDFields(last id). " +
 			"NOT decided: uniqueness across nodes, overflow of the timestamp field, the operating system's monotonic-clock contract (assumed for MonoNode: time.Since(epoch) never decreases).",
 		Assumptions: []string{"invariant 0 <= step <= stepMax (established by obligation 4)", "MonoNode: the monotonic clock never decreases"},
-		Floors:      map[string]int{"C06.guarded-by": 4, "C06.progress": 4, "C06.not-older-than-clock": 1, "C06.step-discipline": 2, "C06.node-discipline": 2, "C06.compose": 2, "C06.mono-source": 2, "C06.restart-seed": 1},
+		Floors:      map[string]int{"C06.guarded-by": 4, "C06.progress": 4, "C06.not-older-than-clock": 1, "C06.step-discipline": 2, "C06.node-discipline": 2, "C06.compose": 2, "C06.mono-source": 2, "C06.restart-seed": 3},
 		Run:         runC06,
 	})
 }
@@ -340,6 +340,31 @@ func (c *Ctx) checkSnowflakeCtors() {
 		if ok && n > 0 {
 			c.holds("C06.restart-seed", "snowflake.NewNode", fn.Pos(), "time, _, step = IDFields(min)")
 		}
+	}
+	// (6b) the unix-nano generators resume from the restart point they are given
+	for _, ctor := range []string{"NewUnixNanoID", "NewUnixNanoNoLockID"} {
+		fn := c.mustFn("idgen/nano", ctor)
+		if fn == nil {
+			continue
+		}
+		traces, _ := c.Trace(fn, TraceConfig{Inline: noInl})
+		good, n := true, 0
+		for _, t := range traces {
+			if t.End != EndReturn {
+				continue
+			}
+			n++
+			seeded := false
+			for _, e := range t.Events {
+				if e.Kind == EvStore && e.Addr.Kind == KFieldAddr && e.Addr.Field.Name() == "current" && e.Addr.Args[0].Key() == t.Ret[0].Key() && e.Val.Key() == "$"+fn.Params[0].Name() {
+					seeded = true
+				}
+			}
+			if !seeded {
+				good = false
+			}
+		}
+		c.check(good && n > 0, "C06.restart-seed", "nano."+ctor, fn.Pos(), "current = the restart point", "the generator does not start from the restart point it is given: after a restart it can issue ids at or below ids issued before (whenever the clock reads lower than the last id)")
 	}
 	// (5) monotonic source
 	if fn := c.mustFn(rel, "NewMonoNode"); fn != nil {
